@@ -892,3 +892,100 @@ impl Property for C14 {
         ctx.section("ops", n, case_strategy(40), |case, rec| check_case(case, rec));
     }
 }
+
+// ---------------------------------------------------------------- libFuzzer decoding
+
+use arbitrary::Unstructured;
+
+fn u_num(u: &mut Unstructured) -> arbitrary::Result<Num> {
+    Ok(match u.int_in_range(0u8..=20)? {
+        0..=7 => Num::Small(u.int_in_range(0u8..=11)?),
+        8 => Num::RemMinus1,
+        9 | 10 => Num::Rem,
+        11 | 12 => Num::RemPlus1,
+        13..=15 => Num::FitCount(u.int_in_range(-1i8..=1)?),
+        16 => Num::Max,
+        17 => Num::HalfMaxPlus1,
+        18 | 19 => Num::MaxDivPlus1(u.int_in_range(2u8..=16)?),
+        _ => Num::Big(u.arbitrary()?),
+    })
+}
+
+fn u_elem(u: &mut Unstructured) -> arbitrary::Result<ElemTy> {
+    const E: [ElemTy; 12] = [
+        ElemTy::U8, ElemTy::I8, ElemTy::U16, ElemTy::I16, ElemTy::U24, ElemTy::U32, ElemTy::I32,
+        ElemTy::U64, ElemTy::I64, ElemTy::T2, ElemTy::T3, ElemTy::T4,
+    ];
+    Ok(E[u.int_in_range(0usize..=11)?])
+}
+
+fn u_idx(u: &mut Unstructured) -> arbitrary::Result<Idx> {
+    Ok(match u.int_in_range(0u8..=11)? {
+        0..=3 => Idx::Small(u.int_in_range(0u8..=9)?),
+        4..=6 => Idx::LenMinus1,
+        7..=9 => Idx::Len,
+        10 => Idx::LenPlus1,
+        _ => Idx::Max,
+    })
+}
+
+fn u_arr_op(u: &mut Unstructured) -> arbitrary::Result<ArrOp> {
+    Ok(match u.int_in_range(0u8..=10)? {
+        0 => ArrOp::Len,
+        1 => ArrOp::GetItem(u_idx(u)?),
+        2 => ArrOp::ReadItem(u_idx(u)?),
+        3 => ArrOp::Last,
+        4 => ArrOp::Iter(u.int_in_range(0u8..=5)?),
+        5 => ArrOp::IterRes,
+        6 => ArrOp::ToVec,
+        7 => ArrOp::ReadToVec,
+        8 => ArrOp::BinarySearch(u.arbitrary()?),
+        9 => ArrOp::CheckIndex(u_idx(u)?),
+        _ => ArrOp::Cow(u.arbitrary()?, u_idx(u)?),
+    })
+}
+
+/// Decode libFuzzer bytes into a case (structure-aware: the fuzzer mutates op choices).
+pub fn case_from_bytes(data: &[u8]) -> arbitrary::Result<Case> {
+    let mut u = Unstructured::new(data);
+    let blen = u.int_in_range(0usize..=64)?;
+    let mut buf = vec![0u8; blen];
+    for b in buf.iter_mut() {
+        *b = u.arbitrary()?;
+    }
+    let mut ops = Vec::new();
+    while !u.is_empty() && ops.len() < 40 {
+        ops.push(match u.int_in_range(0u8..=13)? {
+            0..=3 => Op::Read(u_elem(&mut u)?),
+            4..=7 => {
+                let e = u_elem(&mut u)?;
+                let c = match u.int_in_range(0u8..=3)? {
+                    0 => Ctor::Array(u_num(&mut u)?),
+                    1 => Ctor::Stride(u_num(&mut u)?, u_num(&mut u)?),
+                    2 => Ctor::Dep(u_num(&mut u)?, u.int_in_range(0u8..=8)?),
+                    _ => Ctor::UptoHack(u_num(&mut u)?),
+                };
+                let k = u.int_in_range(0usize..=5)?;
+                let mut aops = Vec::new();
+                for _ in 0..k {
+                    aops.push(u_arr_op(&mut u)?);
+                }
+                Op::Array(e, c, aops)
+            }
+            8 => Op::ReadScope(u_num(&mut u)?),
+            9 => Op::ReadSlice(u_num(&mut u)?),
+            10 => Op::ReadUntilNibble(u.int_in_range(0u8..=15)?),
+            11 => Op::ScopeOffset(u_num(&mut u)?),
+            12 => Op::OffsetLength(u_num(&mut u)?, u_num(&mut u)?),
+            _ => match u.int_in_range(0u8..=2)? {
+                0 => Op::Rescope,
+                1 => Op::BytesAvailable,
+                _ => Op::Reset,
+            },
+        });
+    }
+    if ops.is_empty() {
+        ops.push(Op::BytesAvailable);
+    }
+    Ok(Case { buf, ops })
+}
